@@ -148,7 +148,16 @@ def _covers(update, mutation):
     """the update executes whenever the mutation does: every guard of the update is a guard of the mutation, or is
     the negated exit condition of a chain one of whose arms the mutation sits in."""
     from ..valueflow import guards_imply
-    return guards_imply(mutation.guards, update.guards)
+    # `if new: cache.update(new)` -- an update skipped only when there is nothing to add -- is an update on every path
+    added = None
+    if update.kind == "call" and update.target in ("update", "add") and update.value and len(update.value[3]) == 1:
+        added = simp(update.value[3][0])
+    elif update.kind in ("mutate", "append") and update.value is not None:
+        added = simp(update.value)
+    elif update.kind == "attrstore" and update.op == "BitOr":
+        added = simp(update.value)
+    need = [(c, p) for c, p in update.guards if not (p and added is not None and simp(c) == added)]
+    return guards_imply(mutation.guards, need)
 
 
 def _r1(ctx, pkg):
@@ -158,17 +167,41 @@ def _r1(ctx, pkg):
     # adders stay calls: they are the cache-maintaining primitives _cache_updates knows
     def procs(name):
         return None if name in ("add_reaction", "_add_reaction", "add_reaction_from_file") else pkg.resolve("Network", name)[1]
+    ADDERS = ("add_reaction", "_add_reaction", "add_reaction_from_file")
+
+    def calls_of(fn_, name):
+        return [c for c in ast.walk(fn_) if isinstance(c, ast.Call) and isinstance(c.func, ast.Attribute) and c.func.attr == name
+                and isinstance(c.func.value, ast.Name) and c.func.value.id in ("self", "cls")]
     for mname, fn in ci.methods.items():
-        fl = Flow(fn, NF, proc_resolver=procs)
+        # statement helpers that hand a result back (`return self._record(r)`, `a, b = self._scan(x)`) are put back as well
+        try:
+            efn = pkg.expanded("Network", mname, keep=ADDERS)
+        except Exception:
+            efn = fn
+        fl = Flow(efn, NF, proc_resolver=procs)
         muts = _mutations(fl)
         if not muts:
             continue
         ctx.saw(NF, f"Network.{mname}")
         ups = _cache_updates(fl, pkg)
+        # a private step of a pipeline (`self._store(r)` appends, `self._note_species(r)` updates the caches) is judged where the
+        # pipeline is assembled: in every method that calls it, with the step put back in place
+        callers = [(cn, cf) for cn, cf in ci.methods.items() if cf is not fn and calls_of(cf, mname)] if mname.startswith("_") and not mname.startswith("__") and mname not in ADDERS else []
         for kind, m in muts:
-            n += 1
             missing = [c for c in CACHES if not any(_covers(u, m) for u in ups[c])]
             key = f"Network.{mname}:{kind}@{' & '.join(('' if p else 'not ') + show(simp(g))[:40] for g, p in m.guards) or 'always'}"
+            if missing and callers:
+                left = []
+                for cn, cf in callers:
+                    try:
+                        if calls_of(pkg.expanded("Network", cn, keep=ADDERS), mname):
+                            left.append(cn)
+                    except Exception:
+                        left.append(cn)
+                if left:
+                    ctx.unrec("R1", key, (NF, m.line), f"`{mname}` changes self.reaction_list without updating {missing}; it is a step of {left}, where it could not be put back in place to see whether the caller completes the update")
+                continue            # judged as part of each caller (the step is expanded there)
+            n += 1
             ctx.check(not missing, "R1", key, (NF, m.line),
                       "the cached species sets are updated on this path" if not missing else
                       f"self.reaction_list is changed here ({kind}) but {missing} are neither updated nor rebuilt on this path: "
@@ -177,9 +210,12 @@ def _r1(ctx, pkg):
     ctx.floor("R1", "mutations of reaction_list", n, 7)
     # nobody outside Network writes the caches
     outside = []
+    own = {id(n_) for n_ in ast.walk(ci.node)}        # statements of Network's own methods, whatever the receiver is called
     for f in pkg.files:
         mod = pkg.modules[f]
         for node in ast.walk(mod):
+            if id(node) in own:
+                continue
             tgts = []
             if isinstance(node, ast.Assign):
                 tgts = node.targets
@@ -258,7 +294,9 @@ def _r2(ctx, pkg):
     good = len(ups) == 2 and {g[0] for _, g in ups} == set(CACHES)
     for u, (cache, arg) in ups:
         side = "reactants" if cache == "_reactants" else "products"
-        good = good and any(x == ("attr", reac, side) for x in walk(arg)) and {(simp(g), p) for g, p in u.guards} == {(simp(g), p) for g, p in a.guards}
+        ug, ag = {(simp(g), p) for g, p in u.guards}, {(simp(g), p) for g, p in a.guards}
+        # the same path as the append -- apart from `if <what is added>:` (adding nothing is no update)
+        good = good and any(x == ("attr", reac, side) for x in walk(arg)) and ag <= ug and all(g == (arg, True) for g in ug - ag)
     # the caches are written in some other way (element-wise add in a loop, ..): not understood, no verdict
     other = [f for f in fl.facts if not any(f is u for u, _ in ups) and
              ((f.kind == "call" and f.value and f.value[0] == "meth" and f.value[1][0] == "attr" and f.value[1][1] == SELF and f.value[1][2] in CACHES) or
@@ -1033,3 +1071,17 @@ MUTANTS += [{"name": "setter-snapshot-forgets-skipped", "file": NF, "old": "reco
              "new": "recorded_reactions = [*self.reaction_list]", "rules": ["R2"]}]
 BENIGN += [{"name": "source-by-set-comprehension", "file": NF, "old": "source = self._reactants.difference(self._products)", "new": "source = {sp for sp in self._reactants if sp not in self._products}"}]
 MUTANTS += [{"name": "source-by-set-comprehension-of-products", "file": NF, "old": "source = self._reactants.difference(self._products)", "new": "source = {sp for sp in self._products if sp not in self._products}", "rules": ["R4"]}]
+
+
+def _two_steps(products="        self._products.update(fresh_p)\n"):
+    return {"file": NF, "old": _RECORD_OLD + _ADD_TAIL, "new": "        self._store(reaction)\n        return self._note_species(reaction)\n\n    def _store(self, entry):\n        self.reaction_list.append(entry)\n\n"
+            "    def _note_species(self, entry):\n        fresh_r = set(entry.reactants).difference(self._reactants)\n        fresh_p = set(entry.products).difference(self._products)\n"
+            "        self._reactants.update(fresh_r)\n" + products + "        return fresh_r, fresh_p, entry\n"}
+
+
+BENIGN += [dict(_two_steps(), name="append-and-cache-update-in-separate-steps")]
+MUTANTS += [dict(_two_steps(products=""), name="separate-steps-products-forgotten", rules=["R1", "R2"])]
+BENIGN += [{"name": "cache-update-only-when-something-is-new", "file": NF, "old": "        self._reactants.update(new_reactants)\n        self._products.update(new_products)\n",
+            "new": "        if new_reactants:\n            self._reactants.update(new_reactants)\n        if new_products:\n            self._products.update(new_products)\n"}]
+MUTANTS += [{"name": "products-updated-only-when-reactants-are-new", "file": NF, "old": "        self._reactants.update(new_reactants)\n        self._products.update(new_products)\n",
+             "new": "        if new_reactants:\n            self._reactants.update(new_reactants)\n            self._products.update(new_products)\n", "rules": ["R1", "R2"]}]
